@@ -4,4 +4,4 @@
 set -e
 cd "$(dirname "$0")"
 export GOFLAGS=-mod=mod GOPROXY=off GOSUMDB=off GOTOOLCHAIN=local
-exec ./check C05 --runs 200
+exec ./check C05 --runs 400
